@@ -248,9 +248,20 @@ def segStates (sts : Nat × Nat) (rows : Nat) : List St :=
   | 0 => []
   | r + 1 => St.ofCode sts.1 :: List.replicate r (St.ofCode sts.2)
 
-def leftOnly (s n : Nat) : Alignment := (List.range' s n).map fun i => (some i, none)
-def rightOnly (s n : Nat) : Alignment := (List.range' s n).map fun i => (none, some i)
-def paired (l r n : Nat) : Alignment := (List.range n).map fun k => (some (l + k), some (r + k))
+/-- `(s..s+n).map(|i| (Some(i), None))` -/
+def leftOnly : Nat → Nat → Alignment
+  | _, 0 => []
+  | s, n + 1 => (some s, none) :: leftOnly (s + 1) n
+
+/-- `(s..s+n).map(|i| (None, Some(i)))` -/
+def rightOnly : Nat → Nat → Alignment
+  | _, 0 => []
+  | s, n + 1 => (none, some s) :: rightOnly (s + 1) n
+
+/-- `(l..l+n).zip(r..r+n)` as `(Some, Some)` pairs. -/
+def paired : Nat → Nat → Nat → Alignment
+  | _, _, 0 => []
+  | l, r, n + 1 => (some l, some r) :: paired (l + 1) (r + 1) n
 
 /-- `wrap_minusplus_block`: new alignment and new per-row states, given the number of rows each
     minus (`wl`) and plus (`wr`) line wraps into. `mExp`, `pExp`: expected next line indices;
@@ -509,6 +520,9 @@ structure PH where
   sufLen : Nat
   deriving DecidableEq, Repr
 
+/-- `List.span`, spelt with `takeWhile`/`dropWhile`. -/
+def spanTD (p : Char → Bool) (l : List Char) : List Char × List Char := (l.takeWhile p, l.dropWhile p)
+
 /-- Characters the regex class `\d` accepts, as far as the model knows: ASCII digits and three
     other `Nd` blocks (Arabic-Indic, Devanagari, fullwidth). The harness sends no other digits. -/
 def isUniDigit (c : Char) : Bool :=
@@ -547,7 +561,7 @@ def matchTypeClose (l : List Char) : Option (List Char × List Char) :=
       | [] => none
   match body with
   | some (c :: r) =>
-    let (t, rest) := r.span isTypeRest
+    let (t, rest) := spanTD isTypeRest r
     match rest with
     | '}' :: rest' => some (c :: t, rest')
     | _ => none
@@ -560,7 +574,7 @@ def matchTypeClose (l : List Char) : Option (List Char × List Char) :=
 def matchPrecTypeClose (l : List Char) : Option (Option (List Char) × List Char × List Char) :=
   match l with
   | '.' :: r =>
-    let (ds, rest) := r.span isUniDigit
+    let (ds, rest) := spanTD isUniDigit r
     if ds.isEmpty then none
     else match matchTypeClose rest with
       | some (t, rest') => some (some ds, t, rest')
@@ -572,7 +586,7 @@ def matchPrecTypeClose (l : List Char) : Option (Option (List Char) × List Char
 
 /-- `(\d+)?` then precision, type, closing brace. -/
 def matchWidthOn (l : List Char) : Option (Option (List Char) × Option (List Char) × List Char × List Char) :=
-  let (ds, rest) := l.span isUniDigit
+  let (ds, rest) := spanTD isUniDigit l
   match matchPrecTypeClose rest with
   | some (p, t, rest') => some (if ds.isEmpty then none else some ds, p, t, rest')
   | none => none
@@ -737,14 +751,14 @@ def headerPath (minusFile plusFile : String) : String :=
 
 /-- `@+ ([^@]+)@+(.*\s?)` anchored at the head of `l`: (capture 1, capture 2). -/
 def matchHeaderAt (l : List Char) : Option (List Char × List Char) :=
-  let (ats, r1) := l.span (· = '@')
+  let (ats, r1) := spanTD (· = '@') l
   if ats.isEmpty then none
   else match r1 with
     | ' ' :: r2 =>
-      let (mid, r3) := r2.span (· ≠ '@')
+      let (mid, r3) := spanTD (· ≠ '@') r2
       if mid.isEmpty then none
       else
-        let (ats2, r4) := r3.span (· = '@')
+        let (ats2, r4) := spanTD (· = '@') r3
         if ats2.isEmpty then none else some (mid, r4)
     | _ => none
 
@@ -762,12 +776,12 @@ def coordsF : Nat → List Char → Except String (List (Nat × Nat))
   | _ + 1, [] => .ok []
   | fuel + 1, c :: rest =>
     if c = '-' ∨ c = '+' then
-      let (ds, r1) := rest.span isUniDigit
+      let (ds, r1) := spanTD isUniDigit rest
       if ds.isEmpty then coordsF fuel rest
       else
         let (len, r2) : Option (List Char) × List Char := match r1 with
           | ',' :: r =>
-            let (ls, r') := r.span isUniDigit
+            let (ls, r') := spanTD isUniDigit r
             if ls.isEmpty then (none, r1) else (some ls, r')
           | _ => (none, r1)
         match parseUsize ds with
